@@ -26,7 +26,12 @@
                        Shutdown (closes jobCh), the inner context is cancelled with it
      WorkerExit        a pool worker leaves its loop (ctx.Done, or jobCh closed and drained)
      WalkReturn        Walk's final select: all routines returned, or <-ctx.Done() of the inner
-                       context (then cancelAll and return of the LIVE completions map)
+                       context (then cancelAll).  Code as of the commit "fix: Walk returns a copy of
+                       the completions ...": on both paths the caller gets a SNAPSHOT of the
+                       completions, copied under doneMutex ([snap]); Walk does not wait for the
+                       routines on the ctx.Done path, and the completions they record later
+                       (FinishOk / FinishFail / Reject after WalkReturn) go to the walker's own map
+                       only ([st]), never to the map the caller reads without the mutex
 
    Which context is which: the pool's workers and its shutdown watcher use the OUTER context
    (execute.go: workerPool.StartWorkers(ctx) before NewWalker); Walk derives the INNER context
@@ -52,6 +57,20 @@ Definition is_running (x : status) : bool := match x with Running => true | _ =>
 Definition is_final (x : status) : bool :=
   match x with Ok | Failed | Skipped | Aborted => true | _ => false end.
 
+(* an entry of a completions map (dag.CompletionMap: label -> Completion{IsSuccess, ...}) *)
+Inductive entry := Absent | Success | Failure.
+
+Definition entry_eqb (a b : entry) : bool :=
+  match a, b with
+  | Absent, Absent | Success, Success | Failure, Failure => true
+  | _, _ => false
+  end.
+
+(* the walker's own map w.completions is read off the statuses: n has an entry exactly when
+   onComplete ran for it *)
+Definition entry_of (x : status) : entry :=
+  match x with Ok => Success | Failed => Failure | _ => Absent end.
+
 Record config := mkConfig {
   W : nat;       (* num_workers *)
   ff : bool      (* fail_fast option *)
@@ -65,14 +84,16 @@ Record state := mkState {
   ctxc : bool;          (* outer context cancelled (the inner one with it) *)
   dead : nat;           (* pool workers that have left their loop *)
   ret : bool;           (* Walk has returned *)
-  race : bool           (* a completion was written after Walk handed the live map to its caller *)
+  snap : nat -> entry   (* the map Walk handed to its caller: the copy made by Walker.snapshot under
+                           doneMutex; empty until Walk returns.  The caller (cmds/build.go) reads it
+                           without any lock, at any time after the return *)
 }.
 
 Definition upd {A : Type} (f : nat -> A) (n : nat) (x : A) : nat -> A :=
   fun m => if Nat.eqb m n then x else f m.
 
 Definition set_st (s : state) (f : nat -> status) : state :=
-  mkState f (cp s) (cmd s) (fft s) (ctxc s) (dead s) (ret s) (race s).
+  mkState f (cp s) (cmd s) (fft s) (ctxc s) (dead s) (ret s) (snap s).
 
 Definition inner_cancelled (s : state) : bool := fft s || ctxc s.
 Definition closed (s : state) : bool := ctxc s || ret s.
@@ -98,6 +119,9 @@ Definition desc (g : graph) (a : nat) : list nat := desc_upto g a (size g).
 Definition deps_ok (g : graph) (f : nat -> status) (m : nat) : bool :=
   forallb (fun d => is_ok (f d)) (deps g m).
 
+(* the walker's own completions map *)
+Definition own (s : state) (n : nat) : entry := entry_of (st s n).
+
 (* onComplete's fan-out for a successful n: a parked dependant all of whose in-edge nodes have
    successful completions gets a ready message *)
 Definition release (g : graph) (f : nat -> status) (n : nat) : nat -> status :=
@@ -106,18 +130,20 @@ Definition release (g : graph) (f : nat -> status) (n : nat) : nat -> status :=
            | x => x
            end.
 
+(* onComplete writes the walker's own map ([st]) under doneMutex.  The map the caller of Walk holds
+   ([snap]) is a different map object: it is not touched, whether Walk has returned or not *)
 Definition complete_ok (g : graph) (s : state) (n : nat) : state :=
   let f := upd (st s) n Ok in
   mkState (if fft s then f else release g f n)
-          (cp s) (cmd s) (fft s) (ctxc s) (dead s) (ret s) (race s || ret s).
+          (cp s) (cmd s) (fft s) (ctxc s) (dead s) (ret s) (snap s).
 
 Definition complete_fail (g : graph) (c : config) (s : state) (n : nat) : state :=
   let f := upd (st s) n Failed in
-  if fft s then mkState f (cp s) (cmd s) true (ctxc s) (dead s) (ret s) (race s || ret s)
-  else if ff c then mkState f (fun _ => true) (cmd s) true (ctxc s) (dead s) (ret s) (race s || ret s)
+  if fft s then mkState f (cp s) (cmd s) true (ctxc s) (dead s) (ret s) (snap s)
+  else if ff c then mkState f (fun _ => true) (cmd s) true (ctxc s) (dead s) (ret s) (snap s)
   else let ds := desc g n in
        mkState f (fun m => cp s m || mem_nat m ds) (cmd s) false (ctxc s) (dead s) (ret s)
-               (race s || ret s).
+               (snap s).
 
 Inductive event :=
 | Start (n : nat) | CancelRecv (n : nat) | Pick (n : nat) | CmdStart (n : nat) | Reject (n : nat)
@@ -146,7 +172,7 @@ Definition step (g : graph) (c : config) (s : state) (e : event) : option state 
     then Some (set_st s (upd (st s) n Running)) else None
   | CmdStart n =>
     if Nat.ltb n (size g) && status_eqb (st s n) Running && negb (cmd s n) && negb (inner_cancelled s)
-    then Some (mkState (st s) (cp s) (upd (cmd s) n true) (fft s) (ctxc s) (dead s) (ret s) (race s))
+    then Some (mkState (st s) (cp s) (upd (cmd s) n true) (fft s) (ctxc s) (dead s) (ret s) (snap s))
     else None
   | Reject n =>
     if Nat.ltb n (size g) && status_eqb (st s n) Queued && closed s
@@ -162,14 +188,14 @@ Definition step (g : graph) (c : config) (s : state) (e : event) : option state 
     then Some (set_st s (upd (st s) n Aborted)) else None
   | CtxCancel =>
     if negb (ctxc s)
-    then Some (mkState (st s) (cp s) (cmd s) (fft s) true (dead s) (ret s) (race s)) else None
+    then Some (mkState (st s) (cp s) (cmd s) (fft s) true (dead s) (ret s) (snap s)) else None
   | WorkerExit =>
     if closed s && Nat.ltb (running g s + dead s) (W c)
-    then Some (mkState (st s) (cp s) (cmd s) (fft s) (ctxc s) (S (dead s)) (ret s) (race s)) else None
+    then Some (mkState (st s) (cp s) (cmd s) (fft s) (ctxc s) (S (dead s)) (ret s) (snap s)) else None
   | WalkReturn =>
     if negb (ret s) && (all_final g s || inner_cancelled s)
     then Some (mkState (st s) (if inner_cancelled s then fun _ => true else cp s)
-                       (cmd s) (fft s) (ctxc s) (dead s) true (race s))
+                       (cmd s) (fft s) (ctxc s) (dead s) true (fun n => entry_of (st s n)))
     else None
   end.
 
@@ -177,7 +203,7 @@ Definition step (g : graph) (c : config) (s : state) (e : event) : option state 
    get their ready message at once *)
 Definition init (g : graph) : state :=
   mkState (fun n => match deps g n with [] => Ready | _ :: _ => Parked end)
-          (fun _ => false) (fun _ => false) false false 0 false false.
+          (fun _ => false) (fun _ => false) false false 0 false (fun _ => Absent).
 
 Fixpoint run_from (g : graph) (c : config) (s : state) (evs : list event) : option state :=
   match evs with
